@@ -203,13 +203,14 @@ def handle (line : String) : String :=
     | some n, some hdrs =>
       if hdrs.length != n then bad id "header-count" else handleHs id ep method minor hdrs impl
     | _, _ => bad id "parse"
-  | ["ef", id, _ep, mode, early, chunk, c2s, s2c] =>
+  | [stream, id, _ep, mode, early, chunk, c2s, s2c] =>
+    if stream != "ef" && stream != "et" then bad "?" "unknown-stream" else
     match impl with
     | [status, c2sGot, s2cGot] =>
       -- model: the upgraded stream is a transparent byte pipe in both directions
       let model := s!"101 {c2s} {s2c}"
       let ok := status == "101" && c2sGot == c2s && s2cGot == s2c
-      let cls := s!"ef-{mode}-c2s{sizeBucket c2s}-s2c{sizeBucket s2c}{if early == "1" then "-early" else ""}{if chunk == "1" then "-bytewise" else ""}"
+      let cls := s!"{stream}-{mode}-c2s{sizeBucket c2s}-s2c{sizeBucket s2c}{if early == "1" then "-early" else ""}{if chunk == "1" then "-bytewise" else ""}"
       out id (" ".intercalate impl == model) (b2s ok) cls "-" (if model.length > 200 then (model.take 200).toString ++ "…" else model)
     | _ => bad id "impl-fields"
   | _ => bad "?" "unknown-stream"
